@@ -242,6 +242,11 @@ def check(run, db, tier):
     from .c01 import iczt_rule
     from .c02 import Proxy as _P
     run.group(iczt_rule, _P(run, {'C01.conj': 'C03.kernel'}), db)
+    # where the two engines put the field: chirp-Z == matrix DFT cell by cell (in modulus under a shift) on values; a shift that one
+    # engine does not apply is a displaced image (the reading of the chirp filter above defers to this when it cannot read the code)
+    from .c01values import route_value_rules
+    run.group(route_value_rules, _P(run, {'C01.route': 'C03.kernel'}), db)
+    run.forgive('route_value_rules', ['run_fixed'])
     # the coordinate grids a sampled field is located with: built from fftrange*dx over (row, col), unpacked in the order they are returned (shared with C04)
     from . import c04
     from .c02 import Sub
